@@ -277,6 +277,19 @@ func healthHistory(seed uint64, peers []*hpeer) (res struct {
 			if f < 0 || c < 0 {
 				fail("counter-negative", fmt.Sprintf("peer %d: fails=%d conns=%d at %d ms", p, f, c, t))
 			}
+			// the connection count of a peer is the number of proxied connections open through upstreams that dial it
+			// (from the harness' own list of the connections it has open; events are sequential, so nothing is in flight)
+			want := 0
+			for _, hc := range open {
+				for _, q := range ups[hc.up] {
+					if q == p {
+						want++
+					}
+				}
+			}
+			if int(c) != want {
+				fail("conn-count", fmt.Sprintf("peer %d counts %d open connections at %d ms, %d proxied connections are open through it", p, c, t, want))
+			}
 		}
 		for u := range ups {
 			fmt.Fprintf(&sbo, " a%d", b2i(h.Upstreams[u].available()))
